@@ -11,8 +11,8 @@
 (***************************************************************************)
 EXTENDS Elements, Names, TLC
 
-KeepFalsyDefault      == FALSE  \* _parse_composition: `default or element.default`
-SingleTypeKeepsDefault == FALSE \* _parse_multi_typed, one-element type list
+KeepFalsyDefault      == TRUE   \* _parse_composition: `default or element.default`
+SingleTypeKeepsDefault == TRUE  \* _parse_multi_typed, one-element type list
 
 CompKws == {"anyOf", "oneOf", "allOf", "not"}
 
